@@ -173,3 +173,27 @@ package util
 //@   trusted
 //@   fnparam f pure
 //@   ensures forall(i, 0 <= i && i < len(r0) ==> exists(j, 0 <= j && j < len(a) && r0[i] == a[j]))
+
+// ---- C33: batched work (on top of the RunJobWorker schema, A7) -------------------------
+//
+// bwjobs / bwprefs count the invocations of the job and of the per-batch
+// preparation. With the schema of RunJobWorker (every index of a run once,
+// first error returned) BatchWork's own loop is verified: a nil result means
+// size jobs ran; a preparation runs only when every job of the earlier batches
+// has run and its argument is the last index of a batch of at most limit jobs;
+// a job's index lies in the batch whose last index it is given.
+//@ ghost bwjobs int
+//@ ghost bwprefs int
+//@ func BatchWork
+//@   prop C33
+//@   requires pref != nil && f != nil && limit >= 1 && limit < 4611686018427387904 && size < 4611686018427387904
+//@   requires bwjobs == 0 && bwprefs == 0
+//@   fnparam f counts bwjobs
+//@   fnparam pref counts bwprefs
+//@   fnparam pref requires a1 < size && bwjobs <= a1 && a1 - bwjobs < limit
+//@   fnparam f requires a1 <= a2 && a2 < size && a2 - a1 < limit && bwprefs >= 1
+//@   ensures [all] r0 == nil ==> bwjobs == size
+//@   ensures [none] size < 1 ==> r0 != nil && bwjobs == 0 && bwprefs == 0
+//@   hof RunJobWorker#0 loop invariant bwjobs == jcount && bwprefs == 1
+//@   hof RunJobWorker#1 loop invariant bwjobs == i + jcount && bwprefs >= 1 && end <= size && i < end && end - i <= limit
+//@   loop 0 invariant bwjobs == i && i < size && bwprefs >= 0 && (i > 0 ==> bwprefs >= 1)
